@@ -23,9 +23,9 @@ struct wrec {
 };
 
 static struct iv_inotify *ino;
-static long rec_wd[4];
-static long rec_ignored[4];
-static int nrec;
+static long *rec_wd;
+static long *rec_ignored;
+static int nrec, maxrec;
 static int ino_registered;
 static int ino_kfd;
 static struct wrec W[MAXW];
@@ -33,7 +33,7 @@ static int nW, nM;
 static int next_wd = 1;
 
 /* the records of the current read */
-static struct inotify_event *recaddr[MAXM];
+static struct inotify_event **recaddr;
 static int next_rec;		/* first record not yet accounted for */
 static int reads;
 static int P_acts;
@@ -95,6 +95,25 @@ static long rd_hook(int fd, void *buf, unsigned long n)
 		return -1;
 	}
 	nrec = nM;
+	if (sx_opt("fullbuf", 0)) {
+		/* scale: the read fills the library's buffer to the last byte with name-less events of one watch */
+		nrec = (int)(n / sizeof(struct inotify_event));
+		sx_assert(nrec <= maxrec, "harness.record-arrays-too-small");
+		for (i = 0; i < nrec; i++) {
+			struct inotify_event *ev = (struct inotify_event *)p;
+			recaddr[i] = ev;
+			rec_wd[i] = W[0].wd;
+			rec_ignored[i] = 0;
+			ev->wd = W[0].wd;
+			ev->mask = IN_MODIFY;
+			ev->cookie = 0;
+			ev->len = 0;
+			p += sizeof(*ev);
+		}
+		sx_cover("inotify.read-fills-the-whole-buffer");
+		kfds[fd].rd = 0;
+		return p - (unsigned char *)buf;
+	}
 	for (i = 0; i < nrec; i++) {
 		struct inotify_event *ev = (struct inotify_event *)p;
 		/* no name, a short name, or the longest the kernel produces (255 characters + NUL = 256) */
@@ -145,9 +164,16 @@ static void handler(void *cookie, struct inotify_event *ev)
 	sx_note("cb:watch", r->id);
 	sx_assert(ino_registered, "C20.delivery-after-instance-unregistered");
 	sx_assert(r->w != NULL && r->in_tree, "C20.delivery-to-unregistered-or-dropped-watch");
-	for (i = 0; i < nrec; i++)
-		if (recaddr[i] == ev)
-			idx = i;
+	if (nrec > MAXM) {
+		/* large buffers: records have a fixed size */
+		long k = ((char *)ev - (char *)recaddr[0]) / (long)sizeof(struct inotify_event);
+		if (k >= 0 && k < nrec && recaddr[k] == ev)
+			idx = (int)k;
+	} else {
+		for (i = 0; i < nrec; i++)
+			if (recaddr[i] == ev)
+				idx = i;
+	}
 	sx_assert(idx >= 0, "C20.event-pointer-is-not-a-record-boundary");
 	sx_assert(idx >= next_rec, "C20.records-delivered-out-of-order-or-twice");
 	check_skipped(idx);
@@ -221,6 +247,10 @@ void sx_main(void)
 
 	nW = (int)sx_opt("W", 2);
 	nM = (int)sx_opt("M", 2);
+	maxrec = sx_opt("fullbuf", 0) ? 8192 : MAXM;
+	rec_wd = calloc(maxrec, sizeof(*rec_wd));
+	rec_ignored = calloc(maxrec, sizeof(*rec_ignored));
+	recaddr = calloc(maxrec, sizeof(*recaddr));
 	P_acts = (int)sx_opt("acts", 3);
 	k_env_exclude = sx_opt("poll", 0) ? "epoll-timerfd epoll ppoll" : NULL;
 	k_read_hook = rd_hook;
